@@ -369,6 +369,12 @@ class _SessionMethod(Native):
                             {'table': stmt.table.name})
                 if I.db is None:
                     raise Undecided('DML without a ghost database')
+                if len(args) > 2:
+                    # executemany: INSERT of a sequence of parameter dicts
+                    if not isinstance(stmt, dml.Insert):
+                        raise Undecided('executemany of a %s'
+                                        % type(stmt).__name__)
+                    return I.db.bulk_insert(stmt.table.name, args[2])
                 return I.db.execute(stmt, binds)
             # SELECT: call-site specification (Tier B)
             owner = _innermost_repo_frame(I)
